@@ -39,7 +39,7 @@ def run_step_profiles(res, spec, tier, seed, coq=True, use_cache=True):
         res.cov['evaluations'] += r['cases']
         res.cov['distinct_nontrivial'] += r['distinct_nontrivial']
         res.cov['samples'] += r['samples'][:2]
-        res.notes.setdefault('step_runs', []).append(dict({k: r[k] for k in ('profile', 'cases', 'skipped', 'ops', 'op_distribution', 'impl_s', 'coq_s', 'cached')}, knife_edges=len(r.get('knife_edges', []))))
+        res.notes.setdefault('step_runs', []).append(dict({k: r[k] for k in ('profile', 'cases', 'skipped', 'ops', 'op_distribution', 'impl_s', 'coq_s', 'cached')}, knife_edges=len(r.get('knife_edges', [])), theorem_premises=r.get('premises')))
         res.notes.setdefault('instruction_table', {}).update(r['instruction_table'])
         for e in r['coq_errors']:
             res.add_broken('correspondence', 'coq evaluation of generated cases failed', e)
